@@ -4,6 +4,12 @@ NOTES = ("All checks: bin/check <ID> --tier quick|thorough. Exit 0 held / 1 VIOL
          "Specification in spec/, harness in harness/, known findings in known_findings.jsonl; see DESIGN.md.")
 NOT_APPLICABLE = {}
 CHECKS = {
+    "C01": {
+        "level": "exploration",
+        "technique": "TLA+ Grass pipeline machine (the only terminal actions are Finish and Fail with a public error kind; checked by TLC) + MC_Input: TLC enumerates every atom sequence up to a bound in 12 lexical contexts and every single-mutation descriptor; the harness compiles each (x 3 syntaxes, 6 rotated option combinations, sandboxed workers with watchdog and memory limit); outcome batches validated by TLC (Trace_Total)",
+        "text": "Bounded exhaustive exploration: all strings of <= 4 (thorough 5) characters over a 13-character core alphabet in all three syntaxes; all short atom sequences in value, calc-argument, selector, interpolated-selector/media, selector-function, at-rule and comment contexts; single mutations (delete/duplicate/truncate/insert/replace/swap at every position) of seeded corpus inputs; non-UTF-8 entry bytes and imported files. Every execution must end as CSS or a structured error; a panic, abort, memory blow-up or hang is not an action of the specification.",
+        "note": "Exploration, not proof: inputs are short or one edit away from corpus inputs; evaluation termination is observed through a watchdog (4 s, re-run alone with 24 s); unbounded @while is not generated.",
+    },
     "C20": {
         "level": "model_checking",
         "technique": "TLA+ Cli machine (Start/OpenOutput/ReadInput/Compile/WriteOut/PrintErr) checked by TLC for 'no CSS on failure / CSS in exactly one place on success' and run for every flag vector x input class (MC_Cli); the real binary built from /repo is executed for each, the library is called in-process with the same options as oracle; TLC trace machine Trace_Cli judges exit status, stdout, output file and stderr",
